@@ -413,3 +413,40 @@ func elseStart(src string, pos int) int {
 	}
 	return i
 }
+
+// TplUnusedRangeVar is a `range $i, $v := …` whose element variable is never
+// referenced in the body while the index variable is: the body works on
+// positions, not on the elements it iterates over.
+type TplUnusedRangeVar struct {
+	Index, Elem string
+	Line        int
+}
+
+// TplUnusedRangeVars lists them, and returns the number of two-variable ranges.
+func TplUnusedRangeVars(t *Tpl) (int, []TplUnusedRangeVar) {
+	n := 0
+	var out []TplUnusedRangeVar
+	WalkTpl(t.Tree.Root, func(nd parse.Node) bool {
+		rn, ok := nd.(*parse.RangeNode)
+		if !ok || rn.Pipe == nil || len(rn.Pipe.Decl) != 2 {
+			return true
+		}
+		n++
+		idx, el := rn.Pipe.Decl[0].Ident[0], rn.Pipe.Decl[1].Ident[0]
+		used := map[string]bool{}
+		WalkTpl(rn.List, func(m parse.Node) bool {
+			switch v := m.(type) {
+			case *parse.VariableNode:
+				used[v.Ident[0]] = true
+			case *parse.DotNode, *parse.FieldNode:
+				used[el] = true // inside the range, dot is the element
+			}
+			return true
+		})
+		if used[idx] && !used[el] && el != "$_" {
+			out = append(out, TplUnusedRangeVar{idx, el, 1 + strings.Count(t.Src[:int(rn.Pos)], "\n")})
+		}
+		return true
+	})
+	return n, out
+}
